@@ -184,11 +184,16 @@ def check_secret_reserved(case, ev):
     fa, exc = guarded(lambda: FileAnonymizer(anon_pwd=True, anon_ip=False, salt=salt, reserved_words=list(user) if user else None))
     if exc is not None:
         return core.exc_finding(exc, case, "ctor/")
+    for pl in case.get("prelude", []):
+        # earlier lines of the same run (e.g. a $9$ string whose plaintext is the reserved word)
+        _, exc = guarded(core.run_io, fa, pl + "\n")
+        if exc is not None:
+            return core.exc_finding(exc, case, "secrets/")
     out, exc = guarded(core.run_io, fa, line + "\n")
     if exc is not None:
         return core.exc_finding(exc, case, "secrets/")
     is_res = value in _builtin() or value in user
-    ev.case(case, is_res and value in user, ["user-reserved" if value in user else "builtin-reserved" if is_res else "not-reserved", "mixed-case" if value.lower() != value else "lower"])
+    ev.case(case, is_res and value in user, ["user-reserved" if value in user else "builtin-reserved" if is_res else "not-reserved", "mixed-case" if value.lower() != value else "lower"] + (["after-earlier-lines"] if case.get("prelude") else []))
     if is_res and out != line + "\n":
         return Finding("secrets/reserved-value-replaced:%s" % ("user" if value in user else "builtin"), "reserved=%r: %r -> %r" % (user, line, out), case)
     if not is_res and value in out and not value.isdigit():
@@ -289,7 +294,16 @@ def _secret_case(draw):
         value = draw(st.sampled_from(user)).lower() + "q"
     else:
         value = draw(st.sampled_from(["Hx9Gk2Lm", "RemoveMe", "zorgonq"]))
-    return {"reserved": user, "value": value, "form": draw(st.sampled_from(_FORMS)), "salt": draw(st.sampled_from(["", "s", "Tsalt"]))}
+    prelude = []
+    if draw(st.integers(0, 2)) == 0 and all(ord(ch) < 256 for ch in value):
+        from ..gen import secrets as S
+
+        k = draw(st.integers(0, 2))
+        enc = draw(S.j9_value(plain=value))
+        prelude.append(["set password " + enc, 'set system login user x authentication encrypted-password "' + enc + '"', "snmp-server community " + value + "x ro"][k])
+        if draw(st.booleans()):
+            prelude.append("password someOtherSecret9")
+    return {"reserved": user, "value": value, "form": draw(st.sampled_from(_FORMS)), "salt": draw(st.sampled_from(["", "s", "Tsalt"])), "prelude": prelude}
 
 
 def t_words(shard, nshards, seed, ev, known, n=1000):
